@@ -106,7 +106,10 @@ class Sched:
         self.log.append((m.mid, m.client, srv.idx, m.meth, outcome[0]))
         for ob in self.observers:
             ob(m, "delivered", outcome)
-        if outcome[0] == "ok":
+        if outcome[0] == "async":
+            # the remote method returned a Deferred: the answer travels back when it fires
+            outcome[1].addCallbacks(m.d.callback, m.d.errback)
+        elif outcome[0] == "ok":
             m.d.callback(outcome[1])
         else:
             self.failed += 1
